@@ -631,6 +631,11 @@ class Session:
 
     def after_error(self, i: int, name: str, step: Dict, can: Dict[str, Any]) -> None:
         """E2: an error leaves all operands usable — a follow-up battery matches the pristine interpreter."""
+        if self.giveup_seen:
+            # same narrow relaxation as for the history oracles: after an injected solver give-up a (correct) cache may hold
+            # an answer computed while the solver gave up, and a follow-up would differ from the pristine interpreter
+            self.count("E2_followups_skipped_after_giveup")
+            return
         for k, a in step["args"].items():
             if "slot" not in a:
                 continue
